@@ -131,6 +131,19 @@ _dispatch_verif_io_close_queue(dispatch_io_t channel)
 	return channel->fd_entry ? channel->fd_entry->close_queue : NULL;
 }
 
+// the readiness source of a descriptor's stream for one direction (0 read, 1 write), NULL while it has
+// not been created (it is created when an operation first has to wait for the descriptor)
+DV_EXPORT dispatch_source_t
+_dispatch_verif_io_stream_source(dispatch_io_t channel, int direction)
+{
+	dispatch_fd_entry_t fd_entry = channel->fd_entry;
+	if (!fd_entry || direction < 0 || direction >= DOP_DIR_MAX ||
+			!fd_entry->streams[direction]) {
+		return NULL;
+	}
+	return fd_entry->streams[direction]->source;
+}
+
 // addresses of the internal and external reference counts of an object
 DV_EXPORT void
 _dispatch_verif_object_ref_addrs(void *obj, volatile void **ref,
